@@ -6,7 +6,7 @@ import ast
 from sa.astx import call_name, src, statements
 from sa.selftest import Mutant, Silent
 from sa.source import AnalysisError
-from sa.props._lib_i import sect, COMPAT, BlockRaised, Raised, eval_block, interp, module_env, words
+from sa.props._lib_i import sect, COMPAT, BlockRaised, FollowModule, Raised, interp, module_env, words
 
 PROPERTY = "C46"
 EP = "internet/endpoints.py"
@@ -41,7 +41,7 @@ def check(ctx):
     env0 = module_env(mod)
     ctx.need("_OP" in env0 and "_STRING" in env0, "_OP, _STRING token kinds")
     base = "twisted.internet.endpoints."
-    funcs = dict(COMPAT)
+    funcs = FollowModule(mod, dict(COMPAT), env0)      # explicit models + every other module-level helper of endpoints.py, interpreted on demand
 
     # ---- writer as an ordered rewrite system -------------------------------------------------------------------------------
     with sect(ctx, 'writer as an ordered rewrite system'):
@@ -71,69 +71,40 @@ def check(ctx):
     with sect(ctx, 'reader transition table'):
         ft = ctx.func(EP, "_tokenize")
         q = base + "_tokenize"
-        loops = [st for st in ft.body if isinstance(st, ast.For)]
-        ctx.need(len(loops) == 1 and isinstance(loops[0].target, ast.Name), f"scanning loop of {q}")
-        loop = loops[0]
-        param = ft.args.args[0].arg
-        pre = ft.body[:ft.body.index(loop)]
-        penv = dict(env0)
-        penv[param] = "x"
-        eval_block([st for st in pre if not (isinstance(st, ast.Expr) and isinstance(st.value, ast.Constant))], penv, funcs=funcs)
-        # the iterator variable (advanced by the escape branch) and the state variables re-bound inside the loop
-        it_names = [n for n, v in penv.items() if n not in env0 and n != param and hasattr(v, "__next__")]
-        ctx.need(len(it_names) == 1 and isinstance(loop.iter, ast.Name) and loop.iter.id == it_names[0], f"explicit iterator driving the loop of {q}")
-        itn = it_names[0]
-        rebound = {t.id for st in ast.walk(loop) if isinstance(st, (ast.Assign, ast.AugAssign)) for t in (st.targets if isinstance(st, ast.Assign) else [st.target]) if isinstance(t, ast.Name)}
-        str_state = [n for n in rebound if isinstance(penv.get(n), str)]
-        ctx.need(len(str_state) == 2, f"token accumulator and separator-set state of {q}")
-        cur = next(n for n in str_state if penv[n] == "")
-        ops = next(n for n in str_state if n != cur)
-        tables = [v for n, v in penv.items() if n not in env0 and isinstance(v, dict)]
-        ctx.need(len(tables) == 1, f"separator transition table of {q}")
-        states = sorted({penv[ops]} | set(tables[0].values()))
-        kinds = (env0["_STRING"], env0["_OP"])
-        specials = set()
-        n_cells = 0
-        for state in states:
-            for unit in ALPHABET + ("b", " "):
-                for nxt in ALPHABET:
-                    e = dict(penv)
-                    e.update({loop.target.id: unit, cur: "tok", ops: state, itn: iter([nxt, "Z"])})
-                    try:
-                        r = eval_block(loop.body, e, funcs=funcs)
-                    except BlockRaised as ex:
-                        raise AnalysisError(f"{q}: loop body not evaluable for unit {unit!r}: {ex}")
-                    n_cells += 1
-                    consumed_next = next(e[itn]) == "Z"
-                    got = (list(r.out), e[cur], e[ops], consumed_next)
-                    if unit in state:
-                        want = ([(kinds[0], "tok"), (kinds[1], unit)], "", tables[0].get(unit), False)
-                        cls = "separator"
-                    elif unit == esc:
-                        want = ([], "tok" + nxt, state, True)
-                        cls = "escape"
-                    else:
-                        want = ([], "tok" + unit, state, False)
-                        cls = "literal"
-                    if got != want:
-                        ctx.violation("tokenize/transition", f"{q} | {cls} unit in state {state!r}",
-                                      f"unit {unit!r} (next {nxt!r}) with separators {state!r}: yields/accumulator/next-separators/consumed-next = {got!r}, required {want!r}")
-                        break
-                    if got[0] or consumed_next:
-                        specials.add(unit)
+        tok = interp(ft, funcs, env0)
+        S, O = env0["_STRING"], env0["_OP"]
+
+        def ref_tokens(text):
+            """The documented tokenizer: ':' and '=' separate (after '=' only ':' does, until the next ':'), a backslash makes the next unit literal."""
+            out, cur, ops, i = [], "", ":=", 0
+            while i < len(text):
+                n = text[i]
+                if n in ops:
+                    out += [(S, cur), (O, n)]
+                    cur = ""
+                    ops = ":=" if n == ":" else ":"
+                elif n == "\\":
+                    i += 1
+                    cur += text[i]
                 else:
-                    continue
+                    cur += n
+                i += 1
+            return out + [(S, cur)]
+        bad = None
+        n_words = 0
+        for w in words(ALPHABET + ("b",), 4):
+            text = "".join(w)
+            if len(text) - len(text.rstrip("\\")) & 1:
+                continue                                   # a dangling escape at the very end is malformed input
+            got, err = _call(tok, text)
+            n_words += 1
+            want = ref_tokens(text)
+            if err is not None or list(got) != want:
+                bad = (text, list(got) if err is None else err, want)
                 break
-            else:
-                continue
-            break
-        else:
-            ctx.ok("tokenize/transition", q, f"{n_cells} (state, unit, next unit) cells")
-        post = ft.body[ft.body.index(loop) + 1:]
-        e = dict(penv)
-        e[cur] = "tail"
-        r = eval_block(post, e, funcs=funcs)
-        ctx.check(list(r.out) == [(kinds[0], "tail")], "tokenize/transition", q + " | end of input", f"at end of input the pending token is emitted as {list(r.out)!r}")
+        ctx.check(bad is None, "tokenize/transition", q,
+                  bad and f"_tokenize({bad[0]!r}) yields {bad[1]!r}; the documented tokenizer yields {bad[2]!r} (separators end a token, a backslash makes the next unit literal "
+                  "and is itself dropped)", detail=f"{n_words} descriptions over {{':', '=', backslash, 'a', 'b'}}^<=4")
     # ---- K10: every unit the reader treats specially is escaped by the writer ---------------------------------------------------------
     with sect(ctx, 'K10: every unit the reader treats specially is escaped by the writer'):
         ft = ctx.func(EP, "_tokenize")
@@ -163,7 +134,7 @@ def check(ctx):
     with sect(ctx, 'bounded round trip through _parse'):
         fp = ctx.func(EP, "_parse")
         tokenize = interp(ft, funcs, env0)
-        f2 = dict(funcs)
+        f2 = FollowModule(mod, dict(funcs), env0)
         f2["_tokenize"] = tokenize
         parse = interp(fp, f2, env0)
         quote = interp(fq, funcs, env0)
@@ -226,6 +197,11 @@ SILENT = [
     Silent("quote-explicit-chain", EP, _Q, '    backslash, colon, equals = "\\\\:="\n    argument = argument.replace(backslash, backslash + backslash).replace(equals, backslash + equals).replace(colon, backslash + colon)\n'),
     Silent("quote-by-regex", EP, _Q, '    return re.sub(r"([\\\\:=])", r"\\\\\\1", argument)\n'),
     Silent("quote-char-by-char", EP, _Q, '    return "".join("\\\\" + ch if ch in "\\\\:=" else ch for ch in argument)\n'),
+    Silent("parse-store-helper-at-module-level", EP, "        elif value == colon:\n            add(sofar)\n            sofar = ()\n    add(sofar)\n    return args, kw\n",
+           "        elif value == colon:\n            _store(sofar, args, kw)\n            sofar = ()\n    _store(sofar, args, kw)\n    return args, kw\n",
+           more=[(EP, "def _parse(description):\n", "def _store(pieces, args, kw):\n    if len(pieces) == 1:\n        args.append(pieces[0])\n    else:\n        kw[nativeString(pieces[0])] = pieces[1]\n\n\ndef _parse(description):\n")]),
+    Silent("tokenizer-operators-as-tuple", EP, "    ops = colon + equals\n    nextOps = {colon: colon + equals, equals: colon}\n", "    ops = (colon, equals)\n    nextOps = {colon: (colon, equals), equals: (colon,)}\n",
+           more=[(EP, "        if n in iterbytes(ops):\n", "        if n in ops:\n")]),
     Silent("tokenizer-membership-spelling", EP, "        if n in iterbytes(ops):\n", "        if n in ops:\n"),
     Silent("parse-tuple-concat", EP, "            sofar += (value,)\n", "            sofar = sofar + (value,)\n"),
 ]
